@@ -181,6 +181,8 @@ def run_property(pid, tier="quick", seed=0, jobs=None):
     return 3
   tasks = [(modname, g[0], tier, seed) for g in groups]
   jobs = jobs or min(16, max(1, len(tasks)))
+  if getattr(mod, "INPROCESS", False):
+    jobs = 1  # the module runs its own worker pool (kernel summaries shared between its groups)
   results = []
   if jobs == 1 or len(tasks) == 1:
     for t in tasks:
